@@ -1528,6 +1528,9 @@ func scenPromoteIdle(e *engineA) error {
 		// else will be sent
 		e.stopLoad()
 		e.stopClients = make(chan struct{})
+		for _, n := range e.cl.liveNodes() {
+			e.pc.setSlow(n.dir, "repl.beforeRead", 0)
+		}
 		e.sleepHB(0.5, 1)
 		e.rc.emit(&ev.Rec{K: "quiet-begin"})
 		e.sleepHB(5, 8)
@@ -1545,6 +1548,11 @@ func scenPromoteIdle(e *engineA) error {
 			// the change happens under write load (the leader tells its
 			// replications about new entries all the time)
 			e.startClients(6, map[string]int{"update": 1})
+			if e.rng.Intn(2) == 0 {
+				// and its replications are slow to pick up what they are told
+				// (several messages of the leader pile up for them)
+				e.pc.setSlow(cur.dir, "repl.beforeRead", e.hb()/time.Duration(4+e.rng.Intn(6)))
+			}
 			e.sleepHB(1, 2)
 		}
 		switch e.rng.Intn(3) {
@@ -2159,8 +2167,10 @@ func scenDeposedLeaderTruncates(e *engineA) error {
 		// its successor (the successor's no-op, at an index where the old
 		// leader holds an entry of its own) reaches it while it leads
 		e.rc.emit(&ev.Rec{K: "fault", Op: "leader-cannot-send-but-receives", Nid: l.nid})
+		// (what it initiates is blocked - an outbound rule - while the others
+		// reach it on connections of their own, handshake included)
 		for _, o := range e.others(l) {
-			e.net.Cut(l.label, o.label, true)
+			e.net.MuteOut(l.label, o.label, true)
 		}
 		for i := 0; i < stale; i++ {
 			go e.cl.fsmOpPad(3, l, "update", pad)
@@ -2199,9 +2209,18 @@ func scenDeposedLeaderTruncates(e *engineA) error {
 	}
 	info, _ := l.info(true)
 	e.rc.emit(&ev.Rec{K: "fault", Op: "heal-deposed-leader", Nid: l.nid, Note: fmt.Sprintf("state %c", info.State)})
-	e.isolate(l, false)
+	// the way in opens first: what the successor sends arrives before the
+	// deposed leader gets any answer to what it had sent itself
+	for _, o := range e.others(l) {
+		e.net.MuteOut(l.label, o.label, true)
+		e.net.Cut(l.label, o.label, false)
+		e.net.Cut(o.label, l.label, false)
+		e.net.Release(o.label, l.label, false)
+	}
+	e.sleepHB(1.5, 2.5)
 	for _, o := range e.others(l) {
 		e.net.Cut(l.label, o.label, false)
+		e.net.MuteOut(l.label, o.label, false)
 		e.net.Release(l.label, o.label, true)
 	}
 	e.sleepHB(4, 8)
